@@ -161,7 +161,14 @@ pub struct Shape {
 }
 
 fn cov_bytes(f: u8, a: u16, b: u16) -> Vec<u8> {
-    let ops = match f % 5 {
+    let ops = match f % 6 {
+        5 => {
+            // k nested loops of `a` iterations around one noop: weight ~ a^k, saturating from k = 8 at a = 65535
+            let k = 1 + (b % 10) as usize;
+            let mut v: Vec<ROp> = (0..k).map(|i| ROp::Loop(a, (k - i) as u16)).collect();
+            v.push(ROp::Noop);
+            v
+        }
         0 => vec![ROp::PushIC([0; 32])],
         1 => vec![ROp::Loop(a, 2), ROp::Noop, ROp::Noop, ROp::Hash(b)],
         2 => vec![ROp::Loop(a, 3), ROp::Loop(b % 50, 1), ROp::Noop, ROp::Add],
@@ -287,6 +294,18 @@ pub fn check_shape_with(s: &Shape, st: &mut Stats, shard: usize, panic_is_violat
     Ok(())
 }
 
+pub fn arb_shape() -> impl Strategy<Value = Shape> {
+    (
+        prop_oneof![Just(0u8), Just(1), Just(2), Just(254), Just(255), any::<u8>()],
+        prop_oneof![Just(0u16), Just(1), 0u16..4096],
+        proptest::collection::vec((any::<u8>(), prop_oneof![Just(0u16), Just(1), Just(65535), any::<u16>()], any::<u16>()), 0..5),
+        any::<u8>(),
+        prop_oneof![Just(-1i8), Just(0), Just(1), Just(5)],
+        any::<u8>(),
+    )
+        .prop_map(|(n_out, data_len, covs, mult, fee_off, sigs)| Shape { n_out, data_len, covs, mult, fee_off, sigs })
+}
+
 pub fn run(ctx: &Ctx) -> (Outcome, String, Option<bool>) {
     let mut p = profile();
     if ctx.thorough() {
@@ -298,17 +317,7 @@ pub fn run(ctx: &Ctx) -> (Outcome, String, Option<bool>) {
         ctx,
         "transaction-shapes",
         ctx.scale(700, 9000),
-        || {
-            (
-                prop_oneof![Just(0u8), Just(1), Just(2), Just(254), Just(255), any::<u8>()],
-                prop_oneof![Just(0u16), Just(1), 0u16..4096],
-                proptest::collection::vec((any::<u8>(), prop_oneof![Just(0u16), Just(1), Just(65535), any::<u16>()], any::<u16>()), 0..5),
-                any::<u8>(),
-                prop_oneof![Just(-1i8), Just(0), Just(1), Just(5)],
-                any::<u8>(),
-            )
-                .prop_map(|(n_out, data_len, covs, mult, fee_off, sigs)| Shape { n_out, data_len, covs, mult, fee_off, sigs })
-        },
+        arb_shape,
         |s, st, shard| {
             let r = check_shape(s, st, shard);
             if st.want_sample() {
